@@ -41,10 +41,13 @@ def dec : Nat → List String → Option (DExpr × List String)
       let o ← binOf o; let (a, r) ← dec f r; let (b, r) ← dec f r; pure (.cond o a b, r)
     | "cmp" :: l :: r => do
       let (a, r) ← dec f r; let (b, r) ← dec f r; pure (.cmp (l == "1") a b, r)
+    | "condzcmp" :: o :: r => do
+      let o ← binOf o; let (a, r) ← dec f r; let (b, r) ← dec f r; pure (.condzCmp o a b, r)
     | "condz" :: o :: k :: r => do
-      let o ← binOf o
-      let k ← (match k with | "bool" => some ZKind.bool | "num" => some .num | "ref" => some .ref | _ => none)
-      let (a, r) ← dec f r; pure (.condz o a k, r)
+      let o ← binOf o; let (a, r) ← dec f r
+      (match k with
+       | "bool" => some (.condzBool o a, r) | "num" => some (.condzNum o a, r) | "ref" => some (.condzRef o a, r)
+       | _ => none)
     | "un" :: o :: r => do
       let o ← (match o with | "-" => some DUnOp.neg | "~" => some .not | _ => none)
       let (a, r) ← dec f r; pure (.un o a, r)
